@@ -30,7 +30,8 @@ theorem for_body_eq (t sa acc : List Nat) (k p : Nat) (hp : sa[acc.length]? = so
   by_cases h0 : p > 0
   · have e3 : Rs.sub p 1 = Res.ok (p - 1) := Rs.sub_ok (by omega)
     have e4 : Rs.idx t (p - 1) = Res.ok (t.getD (p - 1) 0) := idx_getD t (p - 1) 0 (by omega)
-    simp [bwt_for1, sym, h0, e1, e2, e3, e4]
+    have h0' : p ≠ 0 := by omega
+    simp [bwt_for1, sym, h0, h0', e1, e2, e3, e4]
   · have hp0 : p = 0 := by omega
     have e3 : Rs.sub t.length 1 = Res.ok (t.length - 1) := Rs.sub_ok (by omega)
     have e4 : Rs.idx t (t.length - 1) = Res.ok (t.getD (t.length - 1) 0) := idx_getD t (t.length - 1) 0 (by omega)
